@@ -221,7 +221,17 @@ class Inliner:
         if is_reference(h) or isinstance(h.node, ast.Lambda) or h is caller:
             return None
         if h.module is not caller.module:
-            return None
+            # another module: only when every global name the helper uses
+            # means the same thing in the caller's module (or it uses none)
+            import builtins
+            hl0 = _locals_of(h.node)
+            for n in ast.walk(h.node):
+                if isinstance(n, ast.Name) and isinstance(n.ctx, ast.Load) \
+                        and n.id not in hl0 and not hasattr(builtins, n.id):
+                    a = self.repo.qualify(h.module, n)
+                    b = self.repo.qualify(caller.module, n)
+                    if a is None or a != b:
+                        return None
         a = h.node.args
         if a.vararg or a.kwarg or any(isinstance(x, ast.Starred)
                                       for x in call.args) or any(
@@ -248,6 +258,8 @@ class Inliner:
                     return None
         if h.is_classmethod:
             return None
+        if any(d.rsplit(".", 1)[-1] != "staticmethod" for d in h.decorators):
+            return None  # a decorator changes what a call means (caches ...)
         return h
 
     def bind_params(self, h: FunctionInfo, call: ast.Call, suffix: str,
